@@ -116,10 +116,15 @@ CHECKS = {
         'C10_finalised_span (conversion to (index,line,column) of start and last consumed offset), C10_spans_ordered (Ordered.v: '
         'the value of every match of a plain expression passes the executable judge SpanSpec.spans_ordered, any nesting, any '
         'input) with C10_judge_spans_inside / C10_list_elements_in_order / C10_fields_nested_and_ordered saying what the verdict '
-        'means (successive siblings disjoint and in input order, fields inside the instance). The same judge (extracted) runs '
+        'means (successive siblings disjoint and in input order, fields inside the instance), C10_every_instance_finalised '
+        '(FinalizeVisit.v: the finalisation walks the result with visit, whose completeness theorem gives that EVERY instance of the '
+        'result - below span-less operator nodes and hand-built objects, inside shared containers - is converted, once, and nothing '
+        'else is touched; tied to the code by an ast check that _finalize_parse_info converts spans inside `for node in visit(nodes)` '
+        'only, and by the stream finalised-everywhere on operator tables and hand-built results with spans computed independently). '
+        'The same judge (extracted) runs '
         'on the implementation\'s results. Correspondence: nested/repeated/optional/separated classes, memo reuse, templates, ignore '
         'declarations, multi-line input, non-zero start offsets; raw and finalised spans of every instance compared.',
-   note=TB + 'conversion exactly once for instances shared through the memo is covered by correspondence only (object identity is not in the model); the order theorem excludes lookahead, Backtrack, reads of bound values, template calls and operator tables (Within.plain), where the judge still runs on the implementation.',
+   note=TB + 'conversion exactly once for instances shared through the memo: object identity is in FinalizeVisit.v (identities of the visit model), not in the grammar-run model; the order theorem excludes lookahead, Backtrack, reads of bound values, template calls and operator tables (Within.plain), where the judge still runs on the implementation.',
    technique='Coq refinement + span containment proofs; extracted executable span predicate as judge; differential correspondence',
    ref='DESIGN.md §6 C10'),
  'C09': dict(
